@@ -53,6 +53,9 @@ class Spec:
     compress: bool = False         # <= 1.2: DEFLATE compression negotiated (RFC 3749) - NOT in C01's claimed domain; used by C13 for the with/without -a comparison only
     secrets13: dict = None         # TLS 1.3: use these traffic secrets ({"chs"|"shs"|"cap"|"sap": bytes}) instead of random ones (C15 picks secrets whose keys have edge values)
     cert_trap: bool = False        # Certificate body that reads as extensions 0x0016 / 0x002b=0304 to a parser that walks past the ServerHello
+    client_auth: bool = False      # full handshakes only: the server asks for a client certificate (CertificateRequest); the client sends Certificate (+ CertificateVerify)
+    group_client_flight: tuple = (1, 1, 1)      # how the client's handshake messages (client_auth: Certificate, [ClientKeyExchange,] CertificateVerify[, Finished]) are packed into records
+    ch_pad: int = 0                # ClientHello padding extension (RFC 7685) of this many bytes: a hello of several TCP segments (TLS >= 1.0)
 
 
 @dataclass
@@ -135,6 +138,8 @@ def build_conn(spec: Spec, rng) -> Conn:
         ce = ext(0, b"\x00\x0e\x00\x00\x0bexample.com") + ext(0x0017, b"") + ext(0x0016, b"")
         if v == 0x0304:
             ce += ext(0x002b, b"\x02\x03\x04") + ext(0x0033, b"\x00\x24\x00\x1d\x00\x20" + rb(32))
+        if spec.ch_pad:
+            ce += ext(0x0015, bytes(spec.ch_pad))
         ch += len(ce).to_bytes(2, "big") + ce
     ch_wire = b"\x03\x01" if v >= 0x0301 else b"\x03\x00"
     ev.append(Ev("c", refrec.plain_record(22, ch_wire, hs(1, ch)), "hs"))
@@ -212,6 +217,9 @@ def build_conn(spec: Spec, rng) -> Conn:
         if spec.ccs13:
             ev.append(Ev("s", refrec.plain_record(20, wire, b"\x01"), "ccs"))
         flight = [hs(8, b"\x00\x00")]
+        cauth = spec.client_auth and not spec.resumed
+        if cauth:
+            flight.append(hs(13, b"\x00\x00\x08\x00\x0d\x00\x04\x00\x02\x08\x04"))
         if not spec.resumed:
             flight += [hs(11, b"\x00" + rb(spec.cert_len)), hs(15, b"\x08\x04\x00\x40" + rb(64))]
         flight.append(hs(20, rb(hl)))
@@ -224,7 +232,13 @@ def build_conn(spec: Spec, rng) -> Conn:
         sw.rekey(*k["sap"])
         if spec.ccs13:
             ev.append(Ev("c", refrec.plain_record(20, wire, b"\x01"), "ccs"))
-        enc(cw, "c", 22, hs(20, rb(hl)), "ehs")
+        cflight = ([hs(11, b"\x00" + rb(rng.choice([3, 200, 900]))), hs(15, b"\x08\x04\x00\x40" + rb(64))] if cauth else []) + [hs(20, rb(hl))]
+        i = 0
+        for g in list(spec.group_client_flight) + [1] * len(cflight):
+            if i >= len(cflight):
+                break
+            enc(cw, "c", 22, b"".join(cflight[i:i + g]), "ehs")
+            i += g
         cw.rekey(*k["cap"])
         tick_at = sorted(rng.randrange(0, len(spec.app) + 1) for _ in range(spec.tickets))
         for idx, (d, data) in enumerate(spec.app):
@@ -275,6 +289,8 @@ def build_conn(spec: Spec, rng) -> Conn:
 
     if spec.resumed:
         ev.append(Ev("s", refrec.plain_record(22, wire, hs(2, sh)), "hs"))
+        if spec.tickets and v != 0x0300:
+            ev.append(Ev("s", refrec.plain_record(22, wire, hs(4, rb(50))), "hs"))     # RFC 5077 3.1: a resumption that issues a new ticket
         ev.append(Ev("s", refrec.plain_record(20, wire, b"\x01"), "ccs"))
         penc(sw, "s", 22, hs(20, rb(fin_len)), "ehs")
         ev.append(Ev("c", refrec.plain_record(20, wire, b"\x01"), "ccs"))
@@ -283,12 +299,16 @@ def build_conn(spec: Spec, rng) -> Conn:
         cert = b"\x00" + rb(spec.cert_len)
         if spec.cert_trap:
             cert = bytes([0, 4]) + rb(4) + b"\x00\x16\x00\x00" + b"\x00\x2b\x00\x02\x03\x04" + rb(max(0, spec.cert_len - 16))
-        msgs = [hs(2, sh), hs(11, cert), hs(12, rb(70)), hs(14, b"")]
+        msgs = [hs(2, sh), hs(11, cert), hs(12, rb(70))] + ([hs(13, b"\x01\x40\x00\x02\x04\x01\x00\x00")] if spec.client_auth else []) + [hs(14, b"")]
         for ri, r in enumerate(pack_records(msgs, spec.group_server_flight, wire)):
             ev.append(Ev("s", r, "hs"))
             if ri == 0 and spec.warn_alert:
                 ev.append(Ev("s", refrec.plain_record(21, wire, b"\x01\x70"), "alert", b"\x01\x70"))
-        ev.append(Ev("c", refrec.plain_record(22, wire, hs(16, rb(66))), "hs"))
+        cmsgs = [hs(16, rb(66))]
+        if spec.client_auth:
+            cmsgs = [hs(11, b"\x00" + rb(rng.choice([3, 200, 900]))), hs(16, rb(66)), hs(15, rb(66))]
+        for r in pack_records(cmsgs, spec.group_client_flight, wire):
+            ev.append(Ev("c", r, "hs"))
         ev.append(Ev("c", refrec.plain_record(20, wire, b"\x01"), "ccs"))
         penc(cw, "c", 22, hs(20, rb(fin_len)), "ehs")
         if spec.tickets:
@@ -379,5 +399,17 @@ def random_spec(rng, version, code, nmax=40, big=True, avoid=()):
     s.cert_trap = rng.random() < 0.3
     s.warn_alert = rng.random() < 0.15
     s.shuffle_exts = rng.random() < 0.6
+    # drawn last so that the draws above keep their place in the stream
+    if rng.random() < 0.25 and not s.resumed:
+        s.client_auth = True
+        s.group_client_flight = rng.choice([(1, 1, 1), (3,), (2, 1), (1, 2)])
+        comp, left = [], 5
+        while left > 0:
+            g = rng.randrange(1, left + 1)
+            comp.append(g)
+            left -= g
+        s.group_server_flight = tuple(comp)
+    if rng.random() < 0.2:
+        s.ch_pad = rng.choice([1, 200, 1300, 1700, 3000])
     classes = dict(pattern=pattern, nrec=len(app))
     return s, classes
